@@ -318,7 +318,36 @@ func runC15(c *Ctx) {
 			}
 		})
 	}
-	c.Min("V4-injected-table-writers", 3)
+	// ... nor through the writers: inside the interpreter (packages context and internal/...) only the
+	// construction of a data context calls Add (its built-in isNil); Add, Del and PluginLoader are the
+	// host's, and the engine's on the host's behalf. A rule's assignment that "starts a map under a new
+	// name" with dc.Add creates an injected name seen by every rule and every later call.
+	for _, f := range c.AllFns {
+		if f.Pkg == nil {
+			continue
+		}
+		pk := f.Pkg.Pkg.Path()
+		if pk != pContext && !strings.HasPrefix(pk, gpath("internal/")) {
+			continue
+		}
+		eachInstr(f, func(in ssa.Instruction) {
+			cc := callCommon(in)
+			if cc == nil {
+				return
+			}
+			cal := cc.StaticCallee()
+			if cal == nil || recvName(cal) != "DataContext" || cal.Pkg == nil || cal.Pkg.Pkg.Path() != pContext {
+				return
+			}
+			if n := cal.Name(); n != "Add" && n != "Del" && n != "PluginLoader" {
+				return
+			}
+			root := fnName(rootOf(f))
+			ctor := root == "NewDataContext" || root == "DataContext.loadInnerUDF"
+			c.Check("V4-injected-table-writers", root+"->"+fnName(cal), ctor, in.Pos(), "%s calls %s: inside the interpreter only the construction of a data context may add to the injected table", root, fnName(cal))
+		})
+	}
+	c.Min("V4-injected-table-writers", 4)
 	// V6: what is read out of a rule's locals table never goes into the data context itself:
 	// the context is shared by every rule of the call, by later calls and by concurrent
 	// executions, the table belongs to one execution. A value looked up in the table and
